@@ -210,6 +210,20 @@ CLAIMS = {
             "the --json twin run is assumed to announce what -U would propose (same command, same tree); interactive "
             "prompts (non accept-all) are not driven",
             "DESIGN.md section 3 C18"),
+    "C12": ("model_checking",
+            "declarative Accept(doc) vs transcription of the loader's checks (Config.tla) model-checked by TLC over all "
+            "combinations of document parts; every document loaded (and applied) by the real code and judged by TLC",
+            "Config.tla describes a rule document by what it defines, uses and refers to (edges typed same-node / "
+            "nthChild.ofRule / relational). Accept = references and rewriters resolve, no same-node utility cycle, no "
+            "transformation cycle, constraint keys / transform sources / fix variables defined, rule has kinds; "
+            "AcceptImpl transcribes the code's checks in order. MC_C12 checks AcceptImpl = Accept and that every fix "
+            "variable of an accepted document is substituted, for all 30240 combinations of 5 main rules x 9 utility "
+            "sets x 4 constraints x 8 transforms x 7 fixes x 3 rewriter sets. Each document is rendered to YAML and "
+            "loaded by from_yaml_string (in a child process when loading may recurse); accepted ones are applied to a "
+            "probe source; Trace_C12 requires accepted iff Accept, no panic/crash, and the replacement text to contain "
+            "the captured / transformed value of every fix variable.",
+            "the variant tables are the quantifier: other ways of breaking a document are not generated",
+            "DESIGN.md section 3 C12"),
 }
 
 NOT_YET = "check not built yet in this round (construction order in DESIGN.md section 9); not claimed until it runs"
